@@ -82,6 +82,9 @@ func projTSPacket(p *astits.Packet, out bool) M {
 	if h.HasAdaptationField && p.AdaptationField != nil {
 		m["af"] = []interface{}{projTSAF(p.AdaptationField, out)}
 	}
+	if out && !h.HasAdaptationField && p.AdaptationField != nil {
+		m["af"] = []interface{}{M{"stray": true}} // a parsed packet without adaptation field carries none (not some other packet's)
+	}
 	return m
 }
 
